@@ -33,6 +33,11 @@ class SymRandom:
         if shape:
             raise sx.EngineUnsupported("np.random.rand with a shape")
         ctx = sx.cur()
+        ptr = ctx.notes.get('draw_ptr', len(ctx.draws))
+        ctx.notes['draw_ptr'] = ptr + 1
+        ctx.notes['draw_calls'] = ctx.notes.get('draw_calls', 0) + 1
+        if ptr < len(ctx.draws):
+            return ctx.draws[ptr]        # rewound stream: the same draw again
         u = sx.Real("u%d" % len(ctx.draws))
         ctx.add(u.z >= 0)
         ctx.add(u.z < 1)
@@ -47,6 +52,15 @@ class SymRandom:
 
 
 npmodel.random = SymRandom()
+
+
+def rewind_draws(scripted=None):
+    """make the next rand() calls return the same draws again (relational checks)"""
+    if sx.CUR is not None:
+        sx.CUR.notes['draw_ptr'] = 0
+    if scripted is not None:
+        scripted.calls_total = getattr(scripted, 'calls_total', 0) + scripted.calls
+        scripted.calls = 0
 
 
 class ScriptedRand:
